@@ -9,10 +9,14 @@
 //	obj <ops>           one request object and its by-value copies (y<a> copy of copy a,
 //	                    f<a>:<v> replyResult(v) on copy a, c cancel)
 //	net <peers> <reqs>  a real node on loopback against scripted peers (package fakepeer):
-//	                    peers ok|close|refuse|silent; reqs <peer>.<act> with act
+//	                    peers ok|close|refuse|silent|blackhole; reqs <peer>.<act> with act
 //	                    R<ms> reply, D drop+cancel, T drop (deadline), L lost by close, U unknown
 //	                    nonce first, P duplicate reply, X late reply after cancel, C<t>.<d> racing cancel,
-//	                    K<t> cancel t ms after the call
+//	                    K<t> cancel t ms after the call, S<m> a reply with bad signature (fakepeer
+//	                    sigMode m = 1..4) then the good reply, B<m> a reply with bad signature only
+//	                    (the caller cancels 300 ms later). With a blackhole peer (an address that
+//	                    does not answer the SYN) the scenario starts with one warm-up request per
+//	                    ok peer, and the output line ends with warm=…
 package c17
 
 import (
@@ -40,7 +44,7 @@ import (
 func init() {
 	h.Register(&h.Prop{
 		ID:   "C17",
-		Rule: "hist: a real node and 1..3 peers (real nodes behind a cuttable relay / harness endpoints) driven through connection histories (requests both ways, answers in any order and late, DisConnectTo, second connections, cuts, restarts of either side, contexts ending), then every connection ended and every peer asked again both ways; disp: random serialised histories over the real dispatch+packPipe (≤60 ops: sends, Replies, replies in any order, duplicates, unknown nonces, cancels, close); obj: copies of one request object; net: real node vs scripted peers, 1..200 concurrent requests over 1..4 connections, reordered/delayed/dropped/duplicated/late replies, cancels, deadline, connection closed mid-flight, refusing and silent peer; non-trivial = ≥2 requests in flight or a fault (drop/dup/unknown/cancel/close/refuse/silent); distinct = distinct case line",
+		Rule: "hist: a real node and 1..3 peers (real nodes behind a cuttable relay / harness endpoints) driven through connection histories (requests both ways, answers in any order and late, DisConnectTo, second connections, cuts, restarts of either side, contexts ending), then every connection ended and every peer asked again both ways; disp: random serialised histories over the real dispatch+packPipe (≤60 ops: sends, Replies, replies in any order, duplicates, unknown nonces, cancels, close); obj: copies of one request object; net: real node vs scripted peers, 1..200 concurrent requests over 1..4 connections, reordered/delayed/dropped/duplicated/late replies, cancels, deadline, connection closed mid-flight, refusing, silent and black-holed peer (SYN never answered; the node is already connected to the answering peers), replies to a pending request with each kind of bad signature followed by the good reply or by nothing; non-trivial = ≥2 requests in flight or a fault (drop/dup/unknown/cancel/close/refuse/silent/blackhole/bad signature); distinct = distinct case line",
 		Gen:  gen,
 		Exec: exec,
 	})
@@ -529,10 +533,14 @@ func parseReqs(s string) []reqSpec {
 
 func netClass(peers, reqs string) (string, bool) {
 	rs := parseReqs(reqs)
-	faults := strings.Contains(peers, "refuse") || strings.Contains(peers, "silent") || strings.Contains(peers, "close")
+	faults := strings.Contains(peers, "refuse") || strings.Contains(peers, "silent") || strings.Contains(peers, "close") || strings.Contains(peers, "blackhole")
+	badSig := false
 	for _, r := range rs {
 		if r.act != 'R' {
 			faults = true
+		}
+		if r.act == 'S' || r.act == 'B' {
+			badSig = true
 		}
 	}
 	b := "1"
@@ -546,6 +554,10 @@ func netClass(peers, reqs string) (string, bool) {
 	}
 	kind := "plain"
 	switch {
+	case strings.Contains(peers, "blackhole"):
+		kind = "blackhole"
+	case badSig:
+		kind = "badsig"
 	case strings.Contains(peers, "silent"):
 		kind = "silent"
 	case strings.Contains(peers, "close"):
@@ -570,6 +582,7 @@ func freePort() string {
 type fpeer struct {
 	idx      int
 	kind     string
+	bh       *blackhole
 	ln       net.Listener
 	addr     string
 	id       []byte
@@ -651,6 +664,8 @@ func (p *fpeer) session(c net.Conn, sc *scenario) {
 		}
 		sp := sc.spec(g)
 		reply := func(payload uint64, n uint64) { s.Send(&p2p.Pong{Count: payload}, n, true, 0) }
+		// a reply to the pending request (right nonce, reply flag) in a package whose signature does not verify
+		badReply := func(mode int) { s.Send(&p2p.Pong{Count: own(g) + 2}, nonce, true, mode) }
 		var act func()
 		switch sp.act {
 		case 'R':
@@ -667,6 +682,12 @@ func (p *fpeer) session(c net.Conn, sc *scenario) {
 			act = func() { reply(own(g)+1, nonce+100000); reply(own(g), nonce) }
 		case 'P':
 			act = func() { reply(own(g), nonce); reply(own(g)+1, nonce) }
+		case 'S':
+			m := sp.a
+			act = func() { badReply(m); reply(own(g), nonce) }
+		case 'B':
+			m := sp.a
+			act = func() { badReply(m) }
 		case 'X':
 			p.mu.Lock()
 			p.late = append(p.late, func() { reply(own(g), nonce) })
@@ -719,7 +740,17 @@ func execNet(peersS, reqsS string) (res h.Result) {
 			nOK++
 		}
 	}
+	hasBlackhole := false
+	for _, k := range kinds {
+		if k == "blackhole" {
+			hasBlackhole = true
+		}
+	}
+	// ids: requests, then one probe per peer, then (black hole in the scenario) one warm-up per peer
 	sc.nTotal = len(sc.reqs) + len(kinds)
+	if hasBlackhole {
+		sc.nTotal += len(kinds)
+	}
 	sc.seen = make([]chan struct{}, sc.nTotal)
 	sc.seenO = make([]sync.Once, sc.nTotal)
 	for i := range sc.seen {
@@ -731,6 +762,12 @@ func execNet(peersS, reqsS string) (res h.Result) {
 		p := &fpeer{idx: i, kind: k, id: []byte(fmt.Sprintf("peer%d", i)), accepted: make(chan struct{}), closeGo: make(chan struct{})}
 		if k == "refuse" {
 			p.addr = "127.0.0.1:" + freePort()
+		} else if k == "blackhole" {
+			bh, err := newBlackhole()
+			if err != nil {
+				panic(err)
+			}
+			p.bh, p.addr = bh, bh.addr
 		} else {
 			ln, err := net.Listen("tcp", "127.0.0.1:0")
 			if err != nil {
@@ -788,7 +825,7 @@ func execNet(peersS, reqsS string) (res h.Result) {
 	perPeerR := make([]sync.WaitGroup, len(peers))
 	issue := func(g int, peer int, sp reqSpec) {
 		wgAll.Add(1)
-		countsForClose := g < len(sc.reqs) && peers[peer].kind == "close" && (sp.act == 'R' || sp.act == 'U' || sp.act == 'P')
+		countsForClose := g < len(sc.reqs) && peers[peer].kind == "close" && (sp.act == 'R' || sp.act == 'U' || sp.act == 'P' || sp.act == 'S')
 		if countsForClose {
 			perPeerR[peer].Add(1)
 		}
@@ -806,12 +843,15 @@ func execNet(peersS, reqsS string) (res h.Result) {
 					case <-fin:
 					}
 				}()
-			case 'D', 'X', 'C':
+			case 'D', 'X', 'C', 'B':
 				go func() {
 					select {
 					case <-sc.seen[g]:
 						if sp.act == 'C' && sp.a > 0 {
 							time.Sleep(time.Duration(sp.a) * time.Millisecond)
+						}
+						if sp.act == 'B' { // give the bad reply the time to be (wrongly) accepted
+							time.Sleep(300 * time.Millisecond)
 						}
 						cancel()
 					case <-fin:
@@ -835,12 +875,41 @@ func execNet(peersS, reqsS string) (res h.Result) {
 			}
 		}()
 	}
-	hasSilent := false
+	waitAll := func() bool {
+		c := make(chan struct{})
+		go func() { wgAll.Wait(); close(c) }()
+		select {
+		case <-c:
+			return true
+		case <-time.After(30 * time.Second):
+			return false
+		}
+	}
+	// a scenario with a black-holed peer starts with one request to every answering peer: the node
+	// is CONNECTED to them (no dial needed any more) when the black hole is asked
+	var warm []int
+	if hasBlackhole {
+		for i, p := range peers {
+			if p.kind == "ok" {
+				g := len(sc.reqs) + len(kinds) + i
+				warm = append(warm, g)
+				issue(g, i, reqSpec{peer: i, act: 'R'})
+			}
+		}
+		waitAll()
+	}
+	hasSilent, stalled := false, false
 	for g, sp := range sc.reqs {
-		if peers[sp.peer].kind == "silent" {
-			hasSilent = true
+		if k := peers[sp.peer].kind; k == "silent" || k == "blackhole" {
+			hasSilent = hasSilent || k == "silent"
+			stalled = stalled || k == "blackhole"
 			issue(g, sp.peer, sp)
 		}
+	}
+	if stalled {
+		// nothing tells us that callHandler has taken the request to the black hole and is dialling:
+		// give it the time (the reviewer's witness waits 200 ms too)
+		time.Sleep(200 * time.Millisecond)
 	}
 	if hasSilent {
 		for _, p := range peers {
@@ -853,23 +922,13 @@ func execNet(peersS, reqsS string) (res h.Result) {
 		}
 	}
 	for g, sp := range sc.reqs {
-		if peers[sp.peer].kind != "silent" {
+		if k := peers[sp.peer].kind; k != "silent" && k != "blackhole" {
 			issue(g, sp.peer, sp)
 		}
 	}
 	for i, p := range peers {
 		if p.kind == "close" {
 			go func(i int, p *fpeer) { perPeerR[i].Wait(); close(p.closeGo) }(i, p)
-		}
-	}
-	waitAll := func() bool {
-		c := make(chan struct{})
-		go func() { wgAll.Wait(); close(c) }()
-		select {
-		case <-c:
-			return true
-		case <-time.After(30 * time.Second):
-			return false
 		}
 	}
 	allBack := waitAll()
@@ -898,6 +957,9 @@ func execNet(peersS, reqsS string) (res h.Result) {
 	for _, p := range peers {
 		if p.ln != nil {
 			p.ln.Close()
+		}
+		if p.bh != nil {
+			p.bh.close()
 		}
 		p.mu.Lock()
 		for _, c := range p.conns {
@@ -928,6 +990,13 @@ func execNet(peersS, reqsS string) (res h.Result) {
 		ps = append(ps, show(g, reqSpec{act: 'R'}))
 	}
 	res.Impl = fmt.Sprintf("res=%s probes=%s", join(rs), join(ps))
+	if hasBlackhole {
+		var ws []string
+		for _, g := range warm {
+			ws = append(ws, show(g, reqSpec{act: 'R'}))
+		}
+		res.Impl += " warm=" + join(ws)
+	}
 
 	// ---- the property itself on what was observed
 	var viol []string
@@ -942,14 +1011,23 @@ func execNet(peersS, reqsS string) (res h.Result) {
 		if r.dur > 8*time.Second {
 			add(fmt.Sprintf("slow-return: %s took %v", name, r.dur))
 		}
+		if r.err == nil && (sp.act == 'S' || sp.act == 'B') && r.payload == own(g)+2 {
+			// Request returned the message of a package whose signature does not verify
+			add(fmt.Sprintf("unsigned-reply-accepted: %s returned payload %d, which the peer sent only in a reply with bad signature (mode %d)", name, r.payload, sp.a))
+			return
+		}
 		if r.err == nil && r.payload != own(g) {
 			add(fmt.Sprintf("cross-talk: %s returned payload %d, its own reply is %d", name, r.payload, own(g)))
 		}
 		answering := kinds[sp.peer] == "ok" || kinds[sp.peer] == "close"
 		switch sp.act {
-		case 'R', 'U', 'P':
+		case 'R', 'U', 'P', 'S':
 			if answering && r.err != nil {
-				if hasSilent {
+				if hasBlackhole {
+					// direct oracle of review 5-D #2: a request to an answering peer (connected already: the
+					// warm-up) failed after a request to a black-holed peer
+					add(fmt.Sprintf("blackhole-wedges-other-peers: %s failed after %v: %s", name, r.dur.Round(time.Millisecond), h.OneLine(r.err.Error())))
+				} else if hasSilent {
 					add(fmt.Sprintf("silent-peer-handshake-wedges-callHandler: %s failed after %v: %s", name, r.dur.Round(time.Millisecond), h.OneLine(r.err.Error())))
 				} else {
 					add(fmt.Sprintf("valid-request-failed: %s failed after %v: %s", name, r.dur.Round(time.Millisecond), h.OneLine(r.err.Error())))
@@ -962,7 +1040,7 @@ func execNet(peersS, reqsS string) (res h.Result) {
 			if !answering && r.err == nil {
 				add("unreachable-peer-answered: " + name)
 			}
-		case 'D', 'T', 'X', 'L':
+		case 'D', 'T', 'X', 'L', 'B':
 			if r.err == nil {
 				add("dropped-request-got-reply: " + name)
 			}
@@ -973,6 +1051,9 @@ func execNet(peersS, reqsS string) (res h.Result) {
 	}
 	for _, g := range probes {
 		check(g, reqSpec{peer: g - len(sc.reqs), act: 'R'}, true)
+	}
+	for _, g := range warm {
+		check(g, reqSpec{peer: g - len(sc.reqs) - len(kinds), act: 'R'}, true)
 	}
 	for _, p := range peers {
 		p.mu.Lock()
@@ -1000,7 +1081,7 @@ func execNet(peersS, reqsS string) (res h.Result) {
 
 // a known finding must not mask a different violation in the same case
 func sigRank(v string) int {
-	if strings.HasPrefix(v, "silent-peer-handshake-wedges-callHandler") {
+	if strings.HasPrefix(v, "silent-peer-handshake-wedges-callHandler") || strings.HasPrefix(v, "blackhole-wedges-other-peers") {
 		return 1
 	}
 	return 0
@@ -1098,7 +1179,7 @@ func gen(tier string, rng *h.Rng, emit func(string)) {
 			}
 		}
 		for i, p := range peers { // one request to every non-answering peer
-			if p == "refuse" || p == "silent" {
+			if p == "refuse" || p == "silent" || p == "blackhole" {
 				rs = append(rs, fmt.Sprintf("%d.R0", i))
 			}
 		}
@@ -1117,6 +1198,8 @@ func gen(tier string, rng *h.Rng, emit func(string)) {
 				rs = append(rs, fmt.Sprintf("%d.R%d", p, rng.Intn(40)))
 			case 'C':
 				rs = append(rs, fmt.Sprintf("%d.C%d.%d", p, rng.Intn(6), rng.Intn(6)))
+			case 'S', 'B':
+				rs = append(rs, fmt.Sprintf("%d.%c%d", p, a, 1+rng.Intn(4)))
 			default:
 				rs = append(rs, fmt.Sprintf("%d.%c", p, a))
 			}
@@ -1138,6 +1221,15 @@ func gen(tier string, rng *h.Rng, emit func(string)) {
 	emit(mk([]string{"ok", "ok"}, 10, "RRTD", 2))
 	emit(mk([]string{"close", "ok"}, 12, "RRLRU", 2))
 	emit(mk([]string{"ok", "silent"}, 6, "RRRP", 0))
+	// a black-holed peer (review 5-D #2): the node is connected to the answering peers, asks the black hole,
+	// and every request to the answering peers issued while the dial is pending must still be served
+	emit("net ok,blackhole 1.R0,0.R0,0.R0,0.R0")
+	emit(mk([]string{"ok", "blackhole", "ok"}, 12, "RRRPU", 0))
+	// replies to a pending request in a package whose signature does not verify (review 5-D #3):
+	// every bad mode, followed by the good reply (S) or by nothing (B)
+	emit("net ok 0.S1,0.S2,0.S3,0.S4")
+	emit("net ok 0.B1,0.B2,0.B3,0.B4,0.R0")
+	emit(mk([]string{"ok", "ok"}, 24, "RRSSBBUP", 0))
 	nn := 8
 	if thorough {
 		nn = 60
@@ -1162,6 +1254,10 @@ func gen(tier string, rng *h.Rng, emit func(string)) {
 				}
 			case 3:
 				slow = 1
+			case 4:
+				if np > 1 {
+					peers[np-1] = "blackhole"
+				}
 			}
 			if peers[0] != "ok" && np == 1 {
 				peers[0] = "ok"
@@ -1171,6 +1267,6 @@ func gen(tier string, rng *h.Rng, emit func(string)) {
 		if rng.Intn(5) == 0 {
 			n = 100 + rng.Intn(101)
 		}
-		emit(mk(peers, n, "RRRRRDUPXCLT", slow))
+		emit(mk(peers, n, "RRRRRRDUPXCLTSB", slow))
 	}
 }
